@@ -2,6 +2,7 @@ package sym
 
 import (
 	"go/types"
+	"regexp"
 	"strconv"
 	"strings"
 
@@ -29,6 +30,66 @@ func registerStd(e *Engine) {
 	}
 	e.reg("github.com/els0r/goProbe/v4/pkg/types/hashmap.runtimeFastrand64", func(e *Engine, st *State, cc *CallCtx) (Value, bool) {
 		return c.Const(0x9E3779B97F4A7C15, 64), true
+	})
+	e.reg("time.runtimeNano", func(e *Engine, st *State, cc *CallCtx) (Value, bool) { return c.Const(1000000000, 64), true })
+	e.reg("time.registerLoadFromEmbeddedTZData", nop)
+	// regexp: opaque native regexps, usable on concrete strings only
+	reCompile := func(must bool) NativeFn {
+		return func(e *Engine, st *State, cc *CallCtx) (Value, bool) {
+			s := e.normStr(cc.Args[0].(StrV))
+			if !s.Conc {
+				panic(unsupported("regexp.Compile on symbolic pattern"))
+			}
+			re, err := regexp.Compile(s.S)
+			if must {
+				if err != nil {
+					e.doPanic(st, &PanicInfo{Val: IfaceV{T: types.Typ[types.String], V: StrV{Conc: true, S: err.Error()}}, Msg: "regexp: " + err.Error(), Site: e.site(st)})
+					return nil, false
+				}
+				return NativeV{Tag: "regexp", V: re}, true
+			}
+			if err != nil {
+				return TupleV{Ptr{}, e.mkError(st, err.Error())}, true
+			}
+			return TupleV{NativeV{Tag: "regexp", V: re}, IfaceV{}}, true
+		}
+	}
+	e.reg("regexp.MustCompile", reCompile(true))
+	e.reg("regexp.Compile", reCompile(false))
+	reArg := func(v Value, what string) *regexp.Regexp {
+		nv, ok := v.(NativeV)
+		if !ok || nv.Tag != "regexp" {
+			panic(unsupported(what + " on a non-native regexp"))
+		}
+		return nv.V.(*regexp.Regexp)
+	}
+	e.reg("(*regexp.Regexp).MatchString", func(e *Engine, st *State, cc *CallCtx) (Value, bool) {
+		s := e.normStr(cc.Args[1].(StrV))
+		if !s.Conc {
+			panic(unsupported("regexp match on symbolic string"))
+		}
+		return c.Bool(reArg(cc.Args[0], "MatchString").MatchString(s.S)), true
+	})
+	e.reg("(*regexp.Regexp).FindStringSubmatch", func(e *Engine, st *State, cc *CallCtx) (Value, bool) {
+		s := e.normStr(cc.Args[1].(StrV))
+		if !s.Conc {
+			panic(unsupported("regexp match on symbolic string"))
+		}
+		m := reArg(cc.Args[0], "FindStringSubmatch").FindStringSubmatch(s.S)
+		if m == nil {
+			return e.Zero(types.NewSlice(types.Typ[types.String])), true
+		}
+		return e.strSliceVal(st, m), true
+	})
+	e.reg("(*regexp.Regexp).ReplaceAllString", func(e *Engine, st *State, cc *CallCtx) (Value, bool) {
+		s, r := e.normStr(cc.Args[1].(StrV)), e.normStr(cc.Args[2].(StrV))
+		if !s.Conc || !r.Conc {
+			panic(unsupported("regexp replace on symbolic string"))
+		}
+		return StrV{Conc: true, S: reArg(cc.Args[0], "ReplaceAllString").ReplaceAllString(s.S, r.S)}, true
+	})
+	e.reg("(*regexp.Regexp).String", func(e *Engine, st *State, cc *CallCtx) (Value, bool) {
+		return StrV{Conc: true, S: reArg(cc.Args[0], "String").String()}, true
 	})
 	e.reg("(*sync.Once).Do", func(e *Engine, st *State, cc *CallCtx) (Value, bool) {
 		p := cc.Args[0].(Ptr)
